@@ -8,6 +8,8 @@ def run(ctx):
     res = ctx.cvc(fams, ["F-SORT"], functions=["radixsort_int"])
     from lib import replay
     replay.replay_fsort(ctx, res)
+    # inputs of multiunion are activated before their vectors are gathered
+    ctx.cvc(["II"] if ctx.tier == "quick" else ["II", "LL", "QQ"], ["T-USE"], functions=["multiunion_m"])
     ctx.standin("multiunion_rt", families=("II", "UU", "LL", "QQ", "IO", "LF") if ctx.tier == "quick" else tuple(ALL))
     return "other", (
         "F-SORT: the pile order of the most significant pass of radixsort_int, read off the macro-expanded AST of "
